@@ -276,6 +276,97 @@ theorem monotone_builtinCall2 (cfg : Cfg) (f : γ → Task → M Value) (b : Bui
   mono_all hmono
 
 @[partial_fixpoint_monotone]
+theorem monotone_forceAll (f : γ → Task → M Value) (ts : List TId) (d1 : Nat)
+    (hmono : monotone f) : monotone (fun x => forceAll (f x) ts d1) := by
+  unfold forceAll
+  mono_all hmono
+
+@[partial_fixpoint_monotone]
+theorem monotone_coerceAll (f : γ → Task → M Value) (vals : List Value) (d1 : Nat)
+    (hmono : monotone f) : monotone (fun x => coerceAll (f x) vals d1) := by
+  unfold coerceAll
+  mono_all hmono
+
+@[partial_fixpoint_monotone]
+theorem monotone_forceBytes (f : γ → Task → M Value) (items : List TId) (item : PArg → Except PErr Nat) (d1 : Nat)
+    (hmono : monotone f) : monotone (fun x => forceBytes (f x) items item d1) := by
+  unfold forceBytes
+  mono_all hmono
+
+@[partial_fixpoint_monotone]
+theorem monotone_fmtForceOpt (f : γ → Task → M Value) (t : Option TId) (d : Nat)
+    (hmono : monotone f) : monotone (fun x => fmtForceOpt (f x) t d) := by
+  unfold fmtForceOpt
+  mono_all hmono
+
+@[partial_fixpoint_monotone]
+theorem monotone_fmtItem (f : γ → Task → M Value) (c : Format.Code) (v : Value) (d : Nat)
+    (hmono : monotone f) : monotone (fun x => fmtItem (f x) c v d) := by
+  unfold fmtItem
+  mono_all hmono
+
+@[partial_fixpoint_monotone]
+theorem monotone_fmtArrayCode (f : γ → Task → M Value) (c : Format.Code) (items : List TId) (i d : Nat)
+    (hmono : monotone f) : monotone (fun x => fmtArrayCode (f x) c items i d) := by
+  unfold fmtArrayCode
+  mono_all hmono
+
+@[partial_fixpoint_monotone]
+theorem monotone_fmtArrayPart (f : γ → Task → M Value) (p : Format.Part) (items : List TId) (i : Nat) (out : List Char) (d : Nat)
+    (hmono : monotone f) : monotone (fun x => fmtArrayPart (f x) p items i out d) := by
+  unfold fmtArrayPart
+  mono_all hmono
+
+@[partial_fixpoint_monotone]
+theorem monotone_fmtArray (f : γ → Task → M Value) (parts : List Format.Part) (items : List TId) (d : Nat)
+    (hmono : monotone f) : monotone (fun x => fmtArray (f x) parts items d) := by
+  unfold fmtArray
+  mono_all hmono
+
+@[partial_fixpoint_monotone]
+theorem monotone_fmtObjectCode (f : γ → Task → M Value) (c : Format.Code) (o : OId) (d : Nat)
+    (hmono : monotone f) : monotone (fun x => fmtObjectCode (f x) c o d) := by
+  unfold fmtObjectCode
+  mono_all hmono
+
+@[partial_fixpoint_monotone]
+theorem monotone_fmtObjectPart (f : γ → Task → M Value) (p : Format.Part) (o : OId) (out : List Char) (d : Nat)
+    (hmono : monotone f) : monotone (fun x => fmtObjectPart (f x) p o out d) := by
+  unfold fmtObjectPart
+  mono_all hmono
+
+@[partial_fixpoint_monotone]
+theorem monotone_fmtObject (f : γ → Task → M Value) (parts : List Format.Part) (o : OId) (d : Nat)
+    (hmono : monotone f) : monotone (fun x => fmtObject (f x) parts o d) := by
+  unfold fmtObject
+  mono_all hmono
+
+@[partial_fixpoint_monotone]
+theorem monotone_pureFinish (f : γ → Task → M Value) (spec : PureSpec) (vals : List Value) (d1 : Nat)
+    (hmono : monotone f) : monotone (fun x => pureFinish (f x) spec vals d1) := by
+  unfold pureFinish
+  mono_all hmono
+
+/-- the generic pure builtin: the recursive-call function is used to force thunks only -/
+@[partial_fixpoint_monotone]
+theorem monotone_std_pure (f : γ → Task → M Value) (spec : PureSpec) (ts : List TId) (d1 : Nat)
+    (hmono : monotone f) : monotone (fun x => std_pure (f x) spec ts d1) := by
+  unfold std_pure
+  mono_all hmono
+
+@[partial_fixpoint_monotone]
+theorem monotone_binaryOp3 (cfg : Cfg) (f : γ → Task → M Value) (op : BinOp) (l r : Value) (d : Nat) (hs : Bool)
+    (hmono : monotone f) : monotone (fun x => binaryOp3 cfg (f x) op l r d hs) := by
+  unfold binaryOp3
+  mono_all hmono
+
+@[partial_fixpoint_monotone]
+theorem monotone_builtinCall3 (cfg : Cfg) (f : γ → Task → M Value) (b : Builtin) (ts : List TId) (d1 : Nat)
+    (hmono : monotone f) : monotone (fun x => builtinCall3 cfg (f x) b ts d1) := by
+  unfold builtinCall3
+  mono_all hmono
+
+@[partial_fixpoint_monotone]
 theorem monotone_thunkBody (cfg : Cfg) (f : γ → Task → M Value) (p : Pending) (d : Nat)
     (hmono : monotone f) : monotone (fun x => thunkBody cfg (f x) p d) := by
   unfold thunkBody
